@@ -20,7 +20,7 @@ for f in sorted(glob.glob('/verif/props/C*.json')):
         "evidence_file": f"/verif/evidence/{pid}.json",
         "replay_cmd_template": "./check --replay {path}",
         "engine": "govc",
-        "level_claimed": {"category": "proof", "text": m['text'], "design_ref": m.get('design_ref', 'DESIGN.md §3')},
+        "level_claimed": {"category": m.get("category", "proof"), "text": m["text"], "design_ref": m.get('design_ref', 'DESIGN.md §3')},
         "level_note": m['note'],
         "technique": m.get('technique', "contract-based deductive verification: VCs generated from the real Go source by govc, discharged by z3/cvc5"),
     })
